@@ -1005,7 +1005,7 @@ pub fn eval_html(text: &str) -> Out {
 // streams
 // ---------------------------------------------------------------------------------------------
 
-pub const TYPST_PIECES: [&str; 20] = ["#let ", "x", " = ", "(", ")", "[", "]", "*a*", "_b_", "= H", "\n", "- i", "$x$", "\"s\"", "#f", ": ", ", ", "..", " ", "é"];
+pub const TYPST_PIECES: [&str; 21] = ["#let ", "x", " = ", "(", ")", "[", "]", "*a*", "_b_", "= H", "\n", "- i", "$x$", "\"s\"", "#f", ": ", ", ", "..", " ", "é", "\"a\\nb c\""];
 
 const DOCS: &[&str] = &[
     "= Introduction\nThis is *strong* and _emph_ text with a #link(\"https://x.y\")[link].\n\n- first item\n- second item\n+ numbered\n/ Term: description é\n\n#let f(x, y: 2, ..rest) = x + y\n#let (a, b) = (1, 2)\n#let s = \"teh wörd\"\n#set text(lang: \"en\", size: 11pt)\n#show heading: it => [#it.body]\n$ x^2 + y $\n",
@@ -1089,6 +1089,8 @@ pub fn corpus_texts() -> Vec<String> {
         "#set text(lang:", "#let f(x) = x", "#let (..n) = 1", "#let s = \"teh wörd\"", "#f(a\nb $x$ c", "#let", "#let ", "#let x", "#let (x) = 1", "#show \"foo\": [bar]", "#set text(size: 1pt) if true", "#rgb(a: 1, \"x\")",
         "#raw(\"c\", theme: \"t\", lang: \"r\")", "#x.display(\"a\", b: \"c\")", "/ Term: desc", "/ Term", "#(a: 1, \"b\": 2, ..c)", "#(1, ..a, [b])", "#let (a, b: c, .., _) = d", "#a.b", "#a.", "#while x", "#for x in y", "#if a [b] else [c]", "#context x",
         "#(x) => x", "#let f(x, y: 1, ..z) = [a]", "= H\n\ntext", "= H\ntext", "- i\ntext\n- j", "text\n= H", "*a _b_ c*", "\"q\" 'q'", "a \\\nb", "https://a.b", "#\"s\"", "#\"\"", "#\"é\"", "#[é *b*]", "é = é", "#f[a][b]", "#f(..a)", "#f(a: )", "#f(a:)", "#(a:)",
+        // string literals with ESCAPES in code mode: the text between the quotes is longer than the value it denotes
+        "#let title = \"first line\\nsecond line of text\"", "#\"a \\\"quoted\\\" wrod here\"", "#let s = \"dash \\u{2014} and teh rest\"", "#text(\"tab\\there and \\\\ back\")", "#let s = \"\\n\\n\\n teh end\"", "#f(\"a\\tb\", \"c \\u{1F600} d wrod\")", "#let s = \"ends in escape\\n\"",
         "#let x = (a:", "#show: x", "#show x:", "#set x", "#{_()}", "#let x = _(1)", "#(_[a])", "#f(_())", "#let x(x", "#(_.a)", "a \\\nb \\ c", "", " ", "\n", "\n\n", "a", "é", "#", "#{", "#(", "#[", "$", "$x", "\"", "#\"",
     ]
     .iter()
